@@ -159,7 +159,8 @@ theorem exAbs_analyzer (tol : Ext K) :
       = { Analyzer.fromDomain (exAbs : Model (Ext K)).domain tol with reachedIterationLimit := true } := by
     simp [Analyzer.analyze, Analyzer.propagate, exAbs, Analyzer.propagateLoop, List.range, List.range.loop]
   rw [h1]
-  simp [Analyzer.enforceable, Analyzer.emptyIntegerRange, Analyzer.fromDomain, exAbs]
+  simp [Analyzer.enforceable, Analyzer.emptyIntegerRange, Analyzer.roundIntegerRanges, Analyzer.roundStep,
+    Analyzer.fromDomain, exAbs]
 
 /-- `min y s.t. abs{x} ≤ y`, `x ∈ [-1, 2]` goes through the whole pipeline (auxiliary `$abs_0` declared), for every
 tolerance, at step limit 0. -/
